@@ -126,6 +126,7 @@ FIXED = {
     "C17/spark-session/array_position": ("911fdaf", "array_position of a NULL array returned 0 on a Spark-backed session", "spark-session-array_position", None),
     "C17/substring/value/pos-0": ("80fae59", "substring(s, 0, n) returned n-1 characters (position 0 is position 1 in Spark); repaired in column.py by the C05 work", "substring-value-pos-0", None),
     "C17/substr/value/pos-0": ("c1c21b8", "substr(s, lit(0), n) returned n-1 characters on DuckDB (position 0 is position 1 in Spark)", "substr-value-pos-0", None),
+    "C17/soundex/value/non-letter-first": ("5196d0d", "soundex of a string whose first character is not a letter was coded instead of returned unchanged (soundex('123abc') gave '1120')", "soundex-value-non-letter-first", None),
     "C17/spark-session/levenshtein": ("0dba499", "levenshtein with a threshold returned -1 for NULL input on a Spark-backed session too", "spark-session-levenshtein", None),
     "C17/spark-session/overlay": ("dcac97a", "overlay read a str pos/len as a string literal on a Spark-backed session (NULL result)", "spark-session-overlay", None),
 }
